@@ -35,7 +35,7 @@ MANIFEST = {
 		'reported. NO theorem (exercised only by seeded runs against the real linter): include order and first include, preprocessor '
 		'indentation (modelled by C20), namespace versus path, forward declarations, brace / return formatting, cross-component '
 		'includes, copyright hash, and every other validator of validation.py. Silence of the whole tree is an execution of '
-		'the real linter, not a theorem.',
+		'the real linter, not a theorem. The stripped-line rules are proved for every line whose text left of the seeded word is a closed prefix, with the silent shapes outside that class refuted by witness lines; the dependency closure is characterised exactly (Lint/LineRulesProofs2.v, DepsProofs2.v).',
 	'design_ref': 'DESIGN.md section 4, C19',
 	'technique': 'Coq proof over regenerated model + vm_compute correspondence with the Python validators + seeded runs of the real linter',
 }
